@@ -78,7 +78,7 @@ func runC18(c *Ctx) {
 		t0 := namedTypeName(stripConv(srcs[0].V).Type())
 		t1 := namedTypeName(stripConv(srcs[1].V).Type())
 		blank = stripConv(srcs[0].V)
-		flagOK := derivesAll(srcs[2].V, func(x ssa.Value) bool {
+		flagOK := derivesAllLive(srcs[2].V, cfgCall.Block(), func(x ssa.Value) bool {
 			if _, ok := loadOfTypeField(x, "ez.Params", "FlagSource"); ok {
 				return true
 			}
